@@ -581,37 +581,42 @@ class Runner:
                 last = "set-" + s["f"]
             else:
                 last = s["op"]
-        for i, (e, en, o, step) in enumerate(zip(exp, expnd, obs, steps)):
-            self.ctx.count(1, json.dumps(dict(cls, check="struct", step=step), sort_keys=True))
-            if "missing" in o:
-                self.viol("C06.struct", "no-" + o["missing"], u, tc, o, None, "generated struct lacks " + o["missing"])
-                return
+        fields = {f["name"]: f for f in u.schema["structs"][st["s"]]["fields"]}
+
+        def deviation(e, o, step):
+            """None if observation o is the one reading e prescribes, else (kind, observed, expected, what)"""
             ev, ov = norm(u.schema, st, e["v"]), norm(u.schema, st, o.get("v"))
-            if ev != ov and norm(u.schema, st, en["v"]) == ov:
-                e = en            # the other admissible reading of struct literals (unmentioned fields are zero)
-                ev = ov
             if ev != ov:
-                kind = "fields-after-" + step
-                self.viol("C06.struct", kind, u, tc, {"step": step, "object": o.get("v"), "first_difference": first_diff(ev, ov)},
-                          {"object": e["v"]}, "object after %s differs from the declared defaults" % step)
-                return
-            fields = {f["name"]: f for f in u.schema["structs"][st["s"]]["fields"]}
+                return ("fields-after-" + step, {"step": step, "object": o.get("v"), "first_difference": first_diff(ev, ov)},
+                        {"object": e["v"]}, "object after %s differs from the declared defaults" % step)
             for n, dem in e["getdem"].items():
                 if not dem:
                     continue
                 eg, og = norm(u.schema, fields[n]["type"], e["get"][n]), norm(u.schema, fields[n]["type"], o["get"].get(n))
                 if eg != og:
-                    kind = "getter-after-" + step
-                    self.viol("C06.struct", kind, u, tc, {"step": step, "field": n, "getter": o["get"].get(n), "isset": o["isset"].get(n),
-                                                          "object": o.get("v")},
-                              {"getter": e["get"][n]}, "getter of optional field %s after %s" % (n, step))
-                    return
+                    return ("getter-after-" + step, {"step": step, "field": n, "getter": o["get"].get(n),
+                                                     "isset": o["isset"].get(n), "object": o.get("v")},
+                            {"getter": e["get"][n]}, "getter of optional field %s after %s" % (n, step))
             for n, must in e["must"].items():
                 if must and o["isset"].get(n) is not True:
-                    self.viol("C06.struct", "isset-after-" + step, u, tc, {"step": step, "field": n, "isset": o["isset"].get(n),
-                                                                          "object": o.get("v")},
-                              {"isset": True}, "optional field %s holds a value different from its default but IsSet is not true" % n)
-                    return
+                    return ("isset-after-" + step, {"step": step, "field": n, "isset": o["isset"].get(n), "object": o.get("v")},
+                            {"isset": True}, "optional field %s holds a value different from its default but IsSet is not true" % n)
+            return None
+
+        for i, (e, en, o, step) in enumerate(zip(exp, expnd, obs, steps)):
+            self.ctx.count(1, json.dumps(dict(cls, check="struct", step=step), sort_keys=True))
+            if "missing" in o:
+                self.viol("C06.struct", "no-" + o["missing"], u, tc, o, None, "generated struct lacks " + o["missing"])
+                return
+            # two admissible readings of struct literals inside the defaults: unmentioned fields keep their declared
+            # defaults (e) or are zero (en); the observation must be what one of them prescribes, as a whole
+            dev = deviation(e, o, step)
+            if dev and deviation(en, o, step) is None:
+                dev, e = None, en
+            if dev:
+                self.viol("C06.struct", dev[0], u, tc, dev[1], dev[2], dev[3])
+                return
+            for n, must in e["must"].items():
                 if not must and n in o["isset"] and o["isset"][n] != e["isset"][n]:
                     self.soft += 1          # DESIGN's IsSet rule where the statement does not demand anything
         self.nstruct = getattr(self, "nstruct", 0) + 1
